@@ -226,55 +226,108 @@ theorem buildMerged_good {β : Type} {ops : Ops β} {srcs : List (Op β)} {o' : 
         exact merged_good ops hcov _ hs
       · cases h
 
+theorem newFull_wf (m : Nat) : Pyramid.WF (Pyramid.newFull m) := by
+  have hlen : (Pyramid.newFull m).length = 32 := by unfold Pyramid.newFull Pyramid.levels; simp
+  refine ⟨hlen, ?_⟩
+  intro z hz
+  have hz' : z < 32 := by rw [hlen] at hz; exact hz
+  have hget : (Pyramid.newFull m)[z]? = some (if z ≤ m then ⟨z, 0, 0, 2 ^ z - 1, 2 ^ z - 1⟩ else ⟨z, 2 ^ z - 1 + 1, 2 ^ z - 1 + 1, 0, 0⟩) := by
+    unfold Pyramid.newFull Pyramid.levels
+    rw [List.getElem?_map, List.getElem?_range hz']
+    rfl
+  have key : ∀ b : BBox, b = (if z ≤ m then ⟨z, 0, 0, 2 ^ z - 1, 2 ^ z - 1⟩ else ⟨z, 2 ^ z - 1 + 1, 2 ^ z - 1 + 1, 0, 0⟩) →
+      b.level = z ∧ b.WF := by
+    intro b hb
+    have hpos := Nat.two_pow_pos z
+    subst hb
+    split
+    · exact ⟨rfl, by show z ≤ 31; omega, by show 2 ^ z - 1 < 2 ^ z; omega, by show 2 ^ z - 1 < 2 ^ z; omega⟩
+    · exact ⟨rfl, by show z ≤ 31; omega, hpos, hpos⟩
+  have h2 := List.getElem?_eq_getElem hz
+  rw [hget] at h2
+  exact key _ (Option.some.inj h2).symm
+
+/-- `from_debug` is a good source (its stream is the default stream of a total lookup) – for an
+    implemented format -/
+theorem debug_good {β : Type} (ops : Ops β) {fmt : Nat} (hf : debugFmtOK fmt = true) : Good (debugOp ops fmt).src := by
+  refine ⟨newFull_wf 31, ?_, ?_⟩
+  · intro c _
+    show ∃ o, (if debugFmtOK fmt then Outcome.ok (some (ops.debug fmt c)) else .err) = .ok o
+    rw [if_pos hf]; exact ⟨_, rfl⟩
+  · intro b hb
+    refine ⟨_, defaultStream_eq _ _ b hb ?_, expected_keys_nodup _ b, List.Perm.refl _⟩
+    intro c _ hp
+    rw [if_pos hf] at hp
+    cases hp
+
 /-! ### every nesting -/
+
+mutual
+/-- every `from_debug` leaf uses a format `build_tile` implements (otherwise all its lookups fail) -/
+def Pipe.DebugOK : Pipe → Prop
+  | .leaf _ => True
+  | .debug fmt => debugFmtOK fmt = true
+  | .filterZoom _ _ p => p.DebugOK
+  | .filterBBox _ p => p.DebugOK
+  | .overlay ps => ps.DebugOK
+  | .merged ps => ps.DebugOK
+  | .update p => p.DebugOK
+def Pipes.DebugOK : Pipes → Prop
+  | .nil => True
+  | .cons p ps => p.DebugOK ∧ ps.DebugOK
+end
 
 mutual
 /-- **every pipeline that builds is a good source** -/
 theorem build_good {β : Type} (ops : Ops β) (env : Nat → Outcome (Op β))
     (henv : ∀ i o, env i = .ok o → Good o.src) :
-    ∀ (p : Pipe) (o : Op β), build ops env p = .ok o → Good o.src
-  | .leaf i, o, h => henv i o (by simpa only [build] using h)
-  | .filterZoom zmin zmax p, o, h => by
+    ∀ (p : Pipe), p.DebugOK → ∀ (o : Op β), build ops env p = .ok o → Good o.src
+  | .leaf i, _, o, h => henv i o (by simpa only [build] using h)
+  | .debug fmt, hd, o, h => by
+    simp only [build] at h
+    cases h
+    exact debug_good ops hd
+  | .filterZoom zmin zmax p, hd, o, h => by
     simp only [build] at h
     split at h
     · rename_i o1 h1
-      exact buildZoom_good (build_good ops env henv p o1 h1) h
+      exact buildZoom_good (build_good ops env henv p hd o1 h1) h
     · exact False.elim (‹∀ (o : Op β), build ops env p = Outcome.ok o → False› o h)
-  | .filterBBox q p, o, h => by
+  | .filterBBox q p, hd, o, h => by
     simp only [build] at h
     split at h
     · rename_i o1 h1
-      exact buildBBox_good (build_good ops env henv p o1 h1) h
+      exact buildBBox_good (build_good ops env henv p hd o1 h1) h
     · exact False.elim (‹∀ (o : Op β), build ops env p = Outcome.ok o → False› o h)
-  | .update p, o, h => by
+  | .update p, hd, o, h => by
     simp only [build] at h
     split at h
     · rename_i o1 h1
-      exact buildUpdate_good (build_good ops env henv p o1 h1) h
+      exact buildUpdate_good (build_good ops env henv p hd o1 h1) h
     · exact False.elim (‹∀ (o : Op β), build ops env p = Outcome.ok o → False› o h)
-  | .overlay ps, o, h => by
+  | .overlay ps, hd, o, h => by
     simp only [build] at h
     split at h
     · rename_i srcs hs
-      exact buildOverlay_good (buildAll_good ops env henv ps srcs hs) h
+      exact buildOverlay_good (buildAll_good ops env henv ps hd srcs hs) h
     · cases h
     · cases h
-  | .merged ps, o, h => by
+  | .merged ps, hd, o, h => by
     simp only [build] at h
     split at h
     · rename_i srcs hs
-      exact buildMerged_good (buildAll_good ops env henv ps srcs hs) h
+      exact buildMerged_good (buildAll_good ops env henv ps hd srcs hs) h
     · cases h
     · cases h
 theorem buildAll_good {β : Type} (ops : Ops β) (env : Nat → Outcome (Op β))
     (henv : ∀ i o, env i = .ok o → Good o.src) :
-    ∀ (ps : Pipes) (os : List (Op β)), buildAll ops env ps = .ok os → ∀ o ∈ os, Good o.src
-  | .nil, os, h => by
+    ∀ (ps : Pipes), ps.DebugOK → ∀ (os : List (Op β)), buildAll ops env ps = .ok os → ∀ o ∈ os, Good o.src
+  | .nil, _, os, h => by
     simp only [buildAll] at h
     cases h
     intro o ho
     exact absurd ho List.not_mem_nil
-  | .cons p ps, os, h => by
+  | .cons p ps, hd, os, h => by
     simp only [buildAll] at h
     split at h
     · rename_i o1 h1
@@ -283,8 +336,8 @@ theorem buildAll_good {β : Type} (ops : Ops β) (env : Nat → Outcome (Op β))
         cases h
         intro o ho
         rcases List.mem_cons.mp ho with rfl | ho'
-        · exact build_good ops env henv p _ h1
-        · exact buildAll_good ops env henv ps os1 h2 o ho'
+        · exact build_good ops env henv p hd.1 _ h1
+        · exact buildAll_good ops env henv ps hd.2 os1 h2 o ho'
       · cases h
       · cases h
     · cases h
@@ -298,6 +351,7 @@ mutual
     are either rejected (`.err`) or a well-formed pyramid -/
 def Pipe.ArgsOK : Pipe → Prop
   | .leaf _ => True
+  | .debug _ => True
   | .filterZoom _ _ p => p.ArgsOK
   | .filterBBox q p => (match q with | .ok qq => qq.WF | .err => True | .panic => False) ∧ p.ArgsOK
   | .overlay ps => ps.ArgsOK
@@ -339,10 +393,11 @@ mutual
     (also `min > max`, values beyond `u8`), every rejected or well-formed bbox argument -/
 theorem build_no_panic {β : Type} (ops : Ops β) (env : Nat → Outcome (Op β))
     (henv : ∀ i o, env i = .ok o → Good o.src) (hnp : ∀ i, env i ≠ .panic) :
-    ∀ (p : Pipe), p.ArgsOK → build ops env p ≠ .panic
-  | .leaf i, _ => by simp only [build]; exact hnp i
-  | .filterZoom zmin zmax p, ha => by
-    have ih := build_no_panic ops env henv hnp p ha
+    ∀ (p : Pipe), p.ArgsOK → p.DebugOK → build ops env p ≠ .panic
+  | .leaf i, _, _ => by simp only [build]; exact hnp i
+  | .debug fmt, _, _ => by simp only [build]; exact fun h => by cases h
+  | .filterZoom zmin zmax p, ha, hd => by
+    have ih := build_no_panic ops env henv hnp p ha hd
     simp only [build]
     cases hb : build ops env p with
     | ok o1 =>
@@ -351,14 +406,14 @@ theorem build_no_panic {β : Type} (ops : Ops β) (env : Nat → Outcome (Op β)
       split <;> exact fun h => by cases h
     | err => exact fun h => by cases h
     | panic => exact absurd hb ih
-  | .filterBBox q p, ha => by
+  | .filterBBox q p, ha, hd => by
     obtain ⟨hq, hp⟩ := ha
-    have ih := build_no_panic ops env henv hnp p hp
+    have ih := build_no_panic ops env henv hnp p hp hd
     simp only [build]
     cases hb : build ops env p with
     | ok o1 =>
       simp only
-      have hg := build_good ops env henv p o1 hb
+      have hg := build_good ops env henv p hd o1 hb
       unfold buildBBox
       cases q with
       | err => exact fun h => by cases h
@@ -371,8 +426,8 @@ theorem build_no_panic {β : Type} (ops : Ops β) (env : Nat → Outcome (Op β)
         exact fun h => by cases h
     | err => exact fun h => by cases h
     | panic => exact absurd hb ih
-  | .update p, ha => by
-    have ih := build_no_panic ops env henv hnp p ha
+  | .update p, ha, hd => by
+    have ih := build_no_panic ops env henv hnp p ha hd
     simp only [build]
     cases hb : build ops env p with
     | ok o1 =>
@@ -381,28 +436,28 @@ theorem build_no_panic {β : Type} (ops : Ops β) (env : Nat → Outcome (Op β)
       split <;> exact fun h => by cases h
     | err => exact fun h => by cases h
     | panic => exact absurd hb ih
-  | .overlay ps, ha => by
-    have ih := buildAll_no_panic ops env henv hnp ps ha
+  | .overlay ps, ha, hd => by
+    have ih := buildAll_no_panic ops env henv hnp ps ha hd
     simp only [build]
     cases hb : buildAll ops env ps with
-    | ok srcs => exact buildOverlay_no_panic (buildAll_good ops env henv ps srcs hb)
+    | ok srcs => exact buildOverlay_no_panic (buildAll_good ops env henv ps hd srcs hb)
     | err => exact fun h => by cases h
     | panic => exact absurd hb ih
-  | .merged ps, ha => by
-    have ih := buildAll_no_panic ops env henv hnp ps ha
+  | .merged ps, ha, hd => by
+    have ih := buildAll_no_panic ops env henv hnp ps ha hd
     simp only [build]
     cases hb : buildAll ops env ps with
-    | ok srcs => exact buildMerged_no_panic (buildAll_good ops env henv ps srcs hb)
+    | ok srcs => exact buildMerged_no_panic (buildAll_good ops env henv ps hd srcs hb)
     | err => exact fun h => by cases h
     | panic => exact absurd hb ih
 theorem buildAll_no_panic {β : Type} (ops : Ops β) (env : Nat → Outcome (Op β))
     (henv : ∀ i o, env i = .ok o → Good o.src) (hnp : ∀ i, env i ≠ .panic) :
-    ∀ (ps : Pipes), ps.ArgsOK → buildAll ops env ps ≠ .panic
-  | .nil, _ => by simp only [buildAll]; exact fun h => by cases h
-  | .cons p ps, ha => by
+    ∀ (ps : Pipes), ps.ArgsOK → ps.DebugOK → buildAll ops env ps ≠ .panic
+  | .nil, _, _ => by simp only [buildAll]; exact fun h => by cases h
+  | .cons p ps, ha, hd => by
     obtain ⟨h1, h2⟩ := ha
-    have i1 := build_no_panic ops env henv hnp p h1
-    have i2 := buildAll_no_panic ops env henv hnp ps h2
+    have i1 := build_no_panic ops env henv hnp p h1 hd.1
+    have i2 := buildAll_no_panic ops env henv hnp ps h2 hd.2
     simp only [buildAll]
     cases hb : build ops env p with
     | ok o1 =>
